@@ -164,23 +164,31 @@ pub mod z {
         buf[pos + 1] = b[1];
     }
 
-    /// hash lookups on small tables with symbolic bucket / chain / bloom words, symbol names and query (ELF32 LE)
-    #[kani::proof]
-    #[kani::stub(std::alloc::alloc, no_alloc)]
-    #[kani::stub(std::alloc::alloc_zeroed, no_alloc)]
-    #[kani::stub(std::alloc::realloc, no_realloc)]
-    #[kani::unwind(7)]
-    pub fn hash_find_no_alloc() {
-        let e = AnyEndian::Little;
-        let mut syms = [0u8; 48];
-        w32(&mut syms, 16, kani::any());
-        w32(&mut syms, 32, kani::any());
-        let symtab: SymbolTable<'_, AnyEndian> = ParsingTable::new(e, Class::ELF32, &syms);
-        let sb: [u8; 5] = [kani::any(), kani::any(), kani::any(), kani::any(), 0];
-        let strtab = StringTable::new(&sb);
-        let q: [u8; 2] = kani::any();
-        let ql: usize = kani::any();
-        kani::assume(ql <= 2);
+    macro_rules! hash_no_alloc {
+        ($name:ident, |$e:ident, $symtab:ident, $strtab:ident, $q:ident| $body:block) => {
+            #[kani::proof]
+            #[kani::stub(std::alloc::alloc, no_alloc)]
+            #[kani::stub(std::alloc::alloc_zeroed, no_alloc)]
+            #[kani::stub(std::alloc::realloc, no_realloc)]
+            #[kani::unwind(7)]
+            pub fn $name() {
+                let $e = AnyEndian::Little;
+                let mut syms = [0u8; 48];
+                w32(&mut syms, 16, kani::any());
+                w32(&mut syms, 32, kani::any());
+                let $symtab: SymbolTable<'_, AnyEndian> = ParsingTable::new($e, Class::ELF32, &syms);
+                let sb: [u8; 5] = [kani::any(), kani::any(), kani::any(), kani::any(), 0];
+                let $strtab = StringTable::new(&sb);
+                let qb: [u8; 2] = kani::any();
+                let ql: usize = kani::any();
+                kani::assume(ql <= 2);
+                let $q = &qb[..ql];
+                $body
+            }
+        };
+    }
+    // hash lookups on small tables with symbolic bucket / chain / bloom words, symbol names and query (ELF32 LE)
+    hash_no_alloc!(sysv_find_no_alloc, |e, symtab, strtab, q| {
         // SysV: nbucket=2, nchain=3, every bucket and chain word symbolic (cycles and out-of-range links included)
         let mut tab = [0u8; 28];
         w32(&mut tab, 0, 2);
@@ -191,9 +199,11 @@ pub mod z {
         w32(&mut tab, 20, kani::any());
         w32(&mut tab, 24, kani::any());
         if let Ok(t) = SysVHashTable::new(e, Class::ELF32, &tab) {
-            let r = t.find(&q[..ql], &symtab, &strtab);
+            let r = t.find(q, &symtab, &strtab);
             kani::cover!(r.is_err(), "SysV lookup error path");
         }
+    });
+    hash_no_alloc!(gnu_find_no_alloc, |e, symtab, strtab, q| {
         // GNU: nbucket=1, symoffset, bloom size 1, shift, bloom word, bucket, two chain words: all symbolic but the counts
         let mut g = [0u8; 32];
         w32(&mut g, 0, 1);
@@ -205,10 +215,10 @@ pub mod z {
         w32(&mut g, 24, kani::any());
         w32(&mut g, 28, kani::any());
         if let Ok(t) = GnuHashTable::new(e, Class::ELF32, &g) {
-            let r = t.find(&q[..ql], &symtab, &strtab);
+            let r = t.find(q, &symtab, &strtab);
             kani::cover!(matches!(r, Ok(None)), "GNU lookup miss");
         }
-    }
+    });
 
     /// symbol-version queries (requirement and definition) on small version sections with symbolic ids / flags / links
     #[kani::proof]
@@ -221,8 +231,10 @@ pub mod z {
         let strs: [u8; 6] = [0, b'a', 0, b'l', kani::any(), 0];
         // verneed: one file record (cnt symbolic <= 2) + two aux records; vn_aux / vna_next / names symbolic
         let mut need = [0u8; 48];
+        let cnt: u16 = kani::any();
+        kani::assume(cnt <= 2);
         w16(&mut need, 0, 1);
-        w16(&mut need, 2, kani::any());
+        w16(&mut need, 2, cnt);
         w32(&mut need, 4, kani::any());
         w32(&mut need, 8, kani::any());
         w32(&mut need, 12, 0);
@@ -237,8 +249,10 @@ pub mod z {
         let mut def = [0u8; 28];
         w16(&mut def, 0, 1);
         w16(&mut def, 2, kani::any());
+        let dcnt: u16 = kani::any();
+        kani::assume(dcnt <= 1);
         w16(&mut def, 4, kani::any());
-        w16(&mut def, 6, kani::any());
+        w16(&mut def, 6, dcnt);
         w32(&mut def, 8, kani::any());
         w32(&mut def, 12, kani::any());
         w32(&mut def, 16, kani::any());
